@@ -218,6 +218,9 @@ def oracle(ctx, deep):
             if "prng" not in a:
                 ctx.violations.append(dict(base, finding_key="C15-panic", what="a call panicked"))
             continue
+        if "BEYOND-LEN-CHANGED" in a:
+            ctx.violations.append(dict(base, finding_key="C15-mutation", what="a call wrote into the caller's backing array beyond the length of RequireSets (the slice was passed as a prefix of a longer table)"))
+            continue
         parts = a.rsplit(" stdout=", 1)[0].split(" | ")
         if "CHANGED" in a:
             j = next(k for k, p in enumerate(parts) if "CHANGED" in p)
